@@ -257,14 +257,27 @@ impl Replayer {
                                 // a completed save leaves a loadable file
                                 // (if something that is not a file sits at the store's path the save cannot complete either)
                                 if st["dir"] == "ok" && !selp(&home).is_dir() {
-                                    let ok = std::fs::read(selp(&home)).ok().and_then(|b| serde_json::from_slice::<std::collections::HashMap<String, String>>(&b).ok()).is_some();
-                                    if !ok {
+                                    let map = std::fs::read(selp(&home)).ok().and_then(|b| serde_json::from_slice::<std::collections::HashMap<String, String>>(&b).ok());
+                                    if map.is_none() {
                                         self.rep.violation("fault", &format!("step {} (commit): the store file is not a JSON object of strings after a completed save", i), case(i));
+                                        return;
+                                    }
+                                    // ... and it holds the choice just made (the whole map is written on every learning commit)
+                                    if is_word && !map.unwrap().contains_key(w) {
+                                        self.rep.violation("fault", &format!("step {} (commit): the save completed but the store file does not hold the choice made for {:?}", i, w), case(i));
                                         return;
                                     }
                                 }
                             }
                         }
+                    }
+                    "repair" => {
+                        // the user-data directory appears / becomes writable under the live context
+                        let d = dirp(&home);
+                        if d.is_file() {
+                            let _ = std::fs::remove_file(&d);
+                        }
+                        let _ = std::fs::create_dir_all(&d);
                     }
                     "crash-in-save" => {
                         ctx = None;
